@@ -281,6 +281,25 @@ def run_property(pid, tier, seed, workdir, t0, a):
         with open(path, 'w') as f:
             json.dump(rec, f, indent=1, default=str)
         violations.append((path, cx.get('reproduced')))
+    # an undecided modular proof (restructured loops, broken invariant, solver limit) is followed by a bounded search of the
+    # same function for a concrete counterexample to its contract; only a natively reproduced input turns it into a violation
+    still_undecided = []
+    for r in undecided:
+        if r.job.get('mode', 'dfcc') != 'dfcc' or not os.environ.get('QX_BOUNDED_FALLBACK', '1') == '1':
+            still_undecided.append(r)
+            continue
+        cx = concretise(r.job, r.job['unit'], r, workdir, log)
+        if cx.get('reproduced'):
+            rec = dict(property=pid, job=r.name, clause=r.job.get('clause', ''), obligation='bounded-search:' + str(cx.get('cex_property')),
+                       description='modular proof undecided (%s); bounded search of the same function under the same contract found an input that fails on the real code' % r.reason[:200],
+                       source='', failed_obligations=[], cbmc_cmds=r.cmds, cbmc_log=r.log[-1000:], concretisation=cx)
+            path = os.path.join(OUT, 'replays', pid, R.safe_name(r.name) + '.json')
+            with open(path, 'w') as f:
+                json.dump(rec, f, indent=1, default=str)
+            violations.append((path, True))
+        else:
+            still_undecided.append(r)
+    undecided = still_undecided
     for l in sorted(set(kf_lines)):
         log(l)
     # evidence
